@@ -98,7 +98,17 @@ AggCases == {[form |-> "agg", op |-> name, sa |-> sa, sb |-> Scalar, A |-> ToJso
              : name \in {"sum", "prod", "mean", "median", "variance", "size"}, sa \in Shapes \ {Scalar}, r \in {1}}
             \cup {[form |-> "agg", op |-> "rank", sa |-> sa, sb |-> Scalar, A |-> ToJson(Operand(sa, "A")), B |-> ToJson(R(r)),
                    res |-> ToJson(Agg("rank", sa, Operand(sa, "A"), r))] : sa \in Shapes \ {Scalar}, r \in 1..(MaxDim * MaxDim + 1)}
+\* life cycle of an array: the first operand had the smaller shape `prev' and was used with it (its size was asked for)
+\* before it was set up again with shape sa; the operation must see the shape the array has now
+Smaller(sh) == {p \in Shapes \ {Scalar} : (IsVec(p) <=> IsVec(sh)) /\ p[1] <= sh[1] /\ p[2] <= sh[2] /\ p # sh}
+RedimCases == {c @@ [prev |-> p] : c \in {d \in EwCases : d.sb = Scalar /\ d.sa # Scalar /\ d.op \in {"*", "+"}} \cup {d \in DotCases : d.res # Reject},
+                                   p \in Shapes \ {Scalar}} 
+\* named arrays correspond by NAME: each of the two operands and the (stock) result may declare the same names in
+\* another order; the value that belongs to a name does not change
+Orders == {<<a, b, r>> : a \in {"fwd", "rev"}, b \in {"fwd", "rev"}, r \in {"fwd", "rev"}} \ {<<"fwd", "fwd", "fwd">>}
+OrderCases == {c @@ [orders |-> o] : c \in {d \in EwCases : d.sa = d.sb /\ d.sa # Scalar}, o \in Orders}
 Cases == EwCases \cup DotCases \cup AggCases
+         \cup {c \in RedimCases : c.prev \in Smaller(c.sa)} \cup OrderCases
 
 Init == case \in Cases /\ done = FALSE
 Next == ~done /\ done' = TRUE /\ UNCHANGED case
